@@ -365,8 +365,8 @@ def hitmiss(input, Bc, out=None, output=None):
     '''
     _verify_is_integer_type(input, 'hitmiss')
     _verify_is_integer_type(Bc, 'hitmiss')
-    if input.ndim != Bc.ndim:
-        raise ValueError('mahotas.hitmiss: `input` and `Bc` must have the same number of dimensions')
+    if input.ndim != Bc.ndim or input.ndim == 0:
+        raise ValueError('mahotas.hitmiss: `input` and `Bc` must have the same (non-zero) number of dimensions')
     if input.dtype != Bc.dtype:
         if input.dtype == np.bool_:
             input = input.view(np.uint8)
